@@ -8,6 +8,14 @@ import vlib
 import dbharness
 
 
+# known finding C09-1: rolling back the only height-carrying block (a compression database that started at
+# height 3 and is rolled back below its first height, as CombinedDatabase::rollback_to does)
+FINDING_WALKS = [
+    [{"a": "New", "kind": "compression", "backend": "rocks"}, {"a": "Commit", "S": [3]}, {"a": "Rollback"},
+     {"a": "Reopen"}],
+]
+
+
 def run(rep, tier, args):
     suffix = "" if tier == "quick" else "_thorough"
     maxh = 4 if tier == "quick" else 6
@@ -16,9 +24,9 @@ def run(rep, tier, args):
         "harness is built with fuel-core features [rocksdb, test-helpers]: the relayer database has no "
         "height-carrying table in this build (heights lookup is `|_| Ok(vec![])`), so for it only height-less "
         "commits and reopen are exercised",
-        "RocksDB databases use StateRewindPolicy::RewindFullRange; rollback is exercised only where a previous "
-        "block remains (rolling back the very first height-carrying block sets the cached height to h-1 while the "
-        "metadata table becomes empty; the property does not speak about that state, see report)",
+        "RocksDB databases use StateRewindPolicy::RewindFullRange; graph and random walks roll back only where a "
+        "previous block remains; rolling back the ONLY height-carrying block is a dedicated walk (known finding "
+        "C09-1: cached height becomes h-1 while no block is left and the metadata table is empty)",
         "height-carrying entries are written as raw column bytes (key/value codecs of FuelBlocks, "
         "FuelBlockIdsToHeights, GasPriceMetadata, CompressedBlocks), values are not decoded by the height lookup",
     ]
@@ -31,6 +39,10 @@ def run(rep, tier, args):
     if args.replay:
         rep.judge_trace("Trace_DbHeight", tcfg, args.replay, name="C09-replay", key_fn=key)
         return
+    # known finding: rollback of the only block (outside the graph on purpose, see DbHeight.tla)
+    fp = os.path.join(wd, "trace-findings.ndjson")
+    dbharness.run_walks_parallel(hbin, "dbheight", FINDING_WALKS, fp, nproc=1)
+    rep.judge_trace("Trace_DbHeight", tcfg, fp, name="C09-findings", key_fn=key)
     # B1: every edge of the reachable graph
     er = vlib.require_clean(vlib.tlc("MC_DbHeight", "Edges_DbHeight%s.cfg" % suffix, workers=1), "edges")
     edges = er.printed("EDGE")
@@ -48,7 +60,7 @@ def run(rep, tier, args):
         rep.count_case(w)
     rep.judge_trace("Trace_DbHeight", tcfg, tp, name="C09-b1", key_fn=key)
     # B3: random histories
-    n = 100 if tier == "quick" else 1500
+    n = 100 if tier == "quick" else 600
     tp3 = os.path.join(wd, "trace-b3.ndjson")
     dbharness.run_random_parallel(hbin, "dbheight-random", tp3, n, extra=["--len", 30, "--maxh", maxh], nproc=5)
     sp = vlib.split_trace(tp3)
